@@ -1,11 +1,40 @@
 #!/bin/sh
 # Runs the repository's pinned test suite with the verif guard OFF on a scratch
-# copy of /repo (the pinned command uses -mod=mod, which rewrites go.mod in place).
-set -e
+# copy of /repo (the pinned command uses -mod=mod, which rewrites go.mod when run
+# in place) and compares with /root/.vp/BASELINE.json's stable_pass set.
+# Packages that do not link under go1.23 (db, dnsserver, fbserver, cmd/*) fail to
+# build in the pinned run as well and are not part of the 365.
 S=$(mktemp -d "${VERIF_SCRATCH:-/var/tmp}/verif-baseline-XXXXXX")
 trap 'rm -rf "$S"' EXIT
 rsync -a --exclude .git /repo/ "$S/repo/"
 export GOFLAGS=-mod=mod GOPROXY=off GOSUMDB=off GOTOOLCHAIN=local
 for m in dnsrocks dnsrocks/go-cdb-mods; do
-  (cd "$S/repo/$m" && go build ./... && go test -vet=off -count=1 -timeout 25m ./...)
+  (cd "$S/repo/$m" && go test -json -vet=off -count=1 -timeout 25m ./... ) >> "$S/out.json" 2>/dev/null
 done
+python3 - "$S/out.json" <<'PY'
+import json, sys
+passed, failed = set(), set()
+for line in open(sys.argv[1], errors="replace"):
+    line = line.strip()
+    if not line.startswith("{"):
+        continue
+    try:
+        ev = json.loads(line)
+    except Exception:
+        continue
+    t = ev.get("Test")
+    if t is None:
+        continue
+    tid = ev.get("Package", "") + "::" + t
+    if ev.get("Action") == "pass":
+        passed.add(tid)
+    elif ev.get("Action") == "fail":
+        failed.add(tid)
+passed -= failed
+want = set(json.load(open("/root/.vp/BASELINE.json"))["stable_pass"])
+missing = sorted(want - passed)
+print("baseline (guard off): %d of %d pinned tests pass; %d failed tests overall" % (len(want & passed), len(want), len(failed)))
+for m in missing[:40]:
+    print("NOT PASSING:", m)
+sys.exit(1 if missing else 0)
+PY
